@@ -24,7 +24,7 @@ RULE = ("corpus of repaired-defect witnesses and of blocked-transport scenarios 
         "the next write fails hard with OSError) after "
         "state-building prefixes (window full, message past PUBREC, failed reconnect pending, packets sitting in _out_packet); "
         "seeded random mostly-conforming histories of length 6..60 in which the transport changes its mind with probability "
-        "0..25% per step and the peer vanishes with probability 0..10% per step; histories across the 16-bit id wrap. Every history runs on the real client and on the extracted model: "
+        "0..25% per step and the peer vanishes with probability 0..10% per step; histories across the 16-bit id wrap; histories in which 60% of the final acknowledgements have 1..3 publish() calls (QoS 0/1/2) nested in their on_publish. Every history runs on the real client and on the extracted model: "
         "per operation the events (hand-overs to _out_packet, writes, callbacks, MQTTMessageInfo changes) and the state "
         "(message stores, _out_packet with kinds/ids/flags/info, blocked flag) are compared, and the implementation trace is "
         "judged by the extracted checkers. distinct = distinct (config, implementation trace); non-trivial = the trace hands "
@@ -33,8 +33,9 @@ ASSUMPTIONS = [
     "a transport that refuses writes refuses the whole packet (partial writes and fragmentation are C05/C06)",
     "broker conformance as defined by Session2/Model.conforming (CONNACK first and once per connection; PUBACK/PUBREC/PUBCOMP only "
     "for a message in the matching wait state whose PUBLISH/PUBREL has been WRITTEN, or for an unknown id)",
-    "callbacks on_publish/on_connect do not raise; no network thread, no on_socket_register_write callback, API calls are not "
-    "nested inside callbacks (C07/C18 cover those)",
+    "callbacks on_publish/on_connect do not raise; no network thread, no on_socket_register_write callback; the only API call "
+    "nested inside a callback is publish() from on_publish (operation rxnest, compared with its expansion into model operations: "
+    "transport blocks; publish...; the acknowledgement; transport accepts - Props/S2.v expand_nested); other nesting: C07/C10/C18",
 ]
 ST = {mqtt.mqtt_ms_publish: 1, mqtt.mqtt_ms_wait_for_puback: 2, mqtt.mqtt_ms_wait_for_pubrec: 3,
       mqtt.mqtt_ms_resend_pubrel: 4, mqtt.mqtt_ms_wait_for_pubcomp: 5, mqtt.mqtt_ms_queued: 6}
@@ -104,6 +105,20 @@ PKIND = {1: 0, 3: 1, 6: 2, 4: 3, 5: 4, 7: 5}      # MQTT packet type -> packet k
 
 def run_impl(cfg, ops):
     """Returns list of (events, state) per op; events are 6-int lists in the model's encoding."""
+    return run_impl_ex(cfg, ops)[0]
+
+
+def run_impl_ex(cfg, ops):
+    """run_impl plus the operation list for the MODEL and its grouping: an operation ("rxnest", kind, mid, qs) - the final
+    acknowledgement of a stored message whose on_publish callback calls publish(qos) for every qos in qs - has no
+    counterpart among the model's operations (they are top-level calls).  What the code does is: the callback runs first,
+    on the state in which the acknowledgement arrived; publish() inside a callback only queues its packet
+    (_packet_queue does not write while _in_callback_mutex is held); then the message is popped, the slot released, and
+    the write of the released packet (or the event loop's next loop_write()) flushes the queue.  In the model that is
+    EXACTLY the operation sequence  transport blocks; publish(q)...; the acknowledgement; transport accepts again  (without
+    the first and last one when the transport is blocked anyway).  The harness runs the nested calls on the real client,
+    the expansion on the model, and compares hand-overs in order, writes in order, the other events as a multiset and
+    the state at the end of the group."""
     v5 = cfg["clean"] == 2 or cfg.get("v5", False)
     proto = mqtt.MQTTv5 if v5 else mqtt.MQTTv311
     c = impl.make_client(protocol=proto, clean=(cfg["clean"] == 1), manual_ack=cfg["manual"], api=cfg.get("api", 2))
@@ -201,6 +216,11 @@ def run_impl(cfg, ops):
             m = c._out_messages.get(mid)
             tag = tag_of_payload(m.payload) if m is not None else st["cur_tag"]
         ev.append([2, mid, tag if tag is not None else -1, 0, 0, 0])
+        if st.get("nest") and mid in c._out_messages:
+            qs, st["nest"] = st["nest"], []
+            st["nest_fired"] = True
+            for q in qs:
+                st["do_pub"](q)
 
     def on_message(cl, ud, msg):
         flush_wire()
@@ -265,26 +285,58 @@ def run_impl(cfg, ops):
                 "outq": queue_projection()}
 
     results = []
+    mops, groups = [], []
+    st["nest"] = []
+    st["nest_fired"] = False
+
+    def do_pub(q):
+        tag = st["ntag"]
+        st["ntag"] += 1
+        st["cur_tag"] = tag
+        expected_mid = c._last_mid + 1 if c._last_mid + 1 != 65536 else 1
+        if q == 0:
+            st["q0mid"][tag] = expected_mid
+        info = c.publish("t", str(tag).encode(), q)
+        st["infos"][id(info)] = (tag, info)
+        st["cur_tag"] = None
+        if q > 0 and info.rc != 15:
+            # stored (also when the write of its PUBLISH failed hard and publish() returned CONN_LOST)
+            st["tag_of_mid"][info.mid] = tag
+            st["rc0"][tag] = (info, int(info.rc))
+        flush_wire()
+        ev.append([1, tag, info.mid, q, int(info.rc), 0])
+    st["do_pub"] = do_pub
     try:
         for o in ops:
             ev.clear()
+            mo = [o]
             try:
-                if o[0] == "pub":
-                    tag = st["ntag"]
-                    st["ntag"] += 1
-                    st["cur_tag"] = tag
-                    expected_mid = c._last_mid + 1 if c._last_mid + 1 != 65536 else 1
-                    if o[1] == 0:
-                        st["q0mid"][tag] = expected_mid
-                    info = c.publish("t", str(tag).encode(), o[1])
-                    st["infos"][id(info)] = (tag, info)
-                    st["cur_tag"] = None
-                    if o[1] > 0 and info.rc != 15:
-                        # stored (also when the write of its PUBLISH failed hard and publish() returned CONN_LOST)
-                        st["tag_of_mid"][info.mid] = tag
-                        st["rc0"][tag] = (info, int(info.rc))
-                    flush_wire()
-                    ev.append([1, tag, info.mid, o[1], int(info.rc), 0])
+                if o[0] == "rxnest":
+                    kind, mid, qs = o[1], o[2], list(o[3])
+                    rxop = ("rx", kind, mid, 0, 0, False)
+                    mo = [rxop]
+                    if c._sock is not None:
+                        plan = c.socks[-1].send_plan
+                        mode = 1 if isinstance(plan, AlwaysBlock) else 2 if isinstance(plan, AlwaysFail) else 0
+                        ev.append([6, RXK[kind], mid, 0, 0, 0])
+                        st["nest"] = qs if mode != 2 else []          # nothing is nested on a socket known to be dead
+                        st["nest_fired"] = False
+                        c.socks[-1].feed(impl.ack(kind, mid))
+                        try:
+                            c.loop_read()
+                        finally:
+                            st["nest"] = []
+                            flush_wire()
+                        if st["nest_fired"]:
+                            if mode == 0:
+                                if c._sock is not None:
+                                    c.loop_write()       # the event loop's next iteration: the socket is writable
+                                    flush_wire()
+                                mo = [("block", True)] + [("pub", q) for q in qs] + [rxop, ("block", False)]
+                            else:
+                                mo = [("pub", q) for q in qs] + [rxop]
+                elif o[0] == "pub":
+                    do_pub(o[1])
                 elif o[0] == "rec":
                     ev.append([9, 0, 0, 0, 0, 0])
                     c.connect_fail.append(not o[1])
@@ -348,6 +400,8 @@ def run_impl(cfg, ops):
                 flush_wire()
                 ev.append([5, 0, 0, 0, 0, 0])
             results.append((resolve(list(ev)), project()))
+            mops.extend(mo)
+            groups.append(len(mo))
             # the result code of an accepted QoS>0 publish must not change behind the trace's back
             for tag, (info, rc0) in st["rc0"].items():
                 if int(info.rc) != rc0 and not any(e[0] == 11 and e[1] == tag for e in results[-1][0]):
@@ -358,7 +412,7 @@ def run_impl(cfg, ops):
     finally:
         mqtt.MQTTMessageInfo._set_as_published = orig_set
         mqtt.MQTTMessageInfo.rc = rc_slot
-    return results
+    return results, mops, groups
 
 
 def canon_events(evs):
@@ -412,9 +466,34 @@ def check_traces(cases_traces):
     return [dict(zip(PROPS, [bool(x) for x in o])) for o in outs]
 
 
+def regroup(mr, groups):
+    """model results of an expanded operation list -> one result per harness operation; a group of several model
+    operations is marked (its events are compared as projections, see first_diff)"""
+    out, i = [], 0
+    for g in groups:
+        if g == 1:
+            out.append(mr[i])
+        else:
+            evs = [e for k in range(i, i + g) for e in mr[k][0] if e[0] != 12]      # the block / unblock of the expansion
+            out.append((["group"] + evs, mr[i + g - 1][1]))
+        i += g
+    return out
+
+
+def _proj(evs):
+    handed = [e for e in evs if e[0] == 10]
+    written = [e for e in evs if e[0] == 0]
+    rest = sorted(e for e in evs if e[0] not in (0, 10))
+    return handed, written, rest
+
+
 def first_diff(impl_res, model_res, v5first):
     for i, ((ie, istate), (me, mstate)) in enumerate(zip(impl_res, model_res)):
-        if canon_events(ie) != canon_events(me):
+        if me and me[0] == "group":
+            if _proj(canon_events(ie)) != _proj(canon_events(me[1:])):
+                return {"op_index": i, "what": "events of an operation with nested publish() calls (hand-overs in order, writes in order, "
+                                               "the rest as a multiset)", "impl": ie, "model": me[1:]}
+        elif canon_events(ie) != canon_events(me):
             return {"op_index": i, "what": "events", "impl": ie, "model": me}
         ist = dict(istate)
         mst = dict(mstate)
@@ -535,7 +614,7 @@ def random_ops(rng, n, cfg, conforming=True):
     return ops
 
 
-def resolve_acks(rng, cfg, ops, conforming=True):
+def resolve_acks(rng, cfg, ops, conforming=True, nest=0.0):
     """Replace ('rx','__ack__') placeholders by an acknowledgement that is legal in the model state
     reached so far (or, with conforming=False, by an arbitrary one).  Uses the model itself, one
     incremental batch per placeholder would be slow, so the state is tracked by running the real
@@ -564,7 +643,10 @@ def resolve_acks(rng, cfg, ops, conforming=True):
                     cands.append(("rx", rng.choice(["puback", "pubrec", "pubcomp"]), mid, 0, 0, False))
             if rng.random() < 0.1 or not cands:
                 cands.append(("rx", rng.choice(["puback", "pubrec", "pubcomp"]), 60000 + rng.randrange(5), 0, 0, False))
-            out.append(rng.choice(cands))
+            pick = rng.choice(cands)
+            if nest and pick[1] in ("puback", "pubcomp") and rng.random() < nest:
+                pick = ("rxnest", pick[1], pick[2], tuple(rng.choice([1, 1, 2, 2, 0]) for _ in range(rng.choice([1, 1, 2, 3]))))
+            out.append(pick)
         else:
             out.append(o)
     return out
@@ -586,7 +668,29 @@ def corpus_cases():
          [("rec", True), ca, ("rx", "publish", 1, 7, 301, True), ("rx", "pubrel", 50, 0, 0, False)]),
         ("offline-then-window", {"clean": 0, "max": 2, "maxq": 0, "manual": False, "suppress": False},
          [("pub", 1), ("pub", 2), ("pub", 1), ("rec", True), ("pub", 1), ca, ("rx", "puback", 1, 0, 0, False)]),
-    ] + blocked_corpus() + hard_failure_corpus()
+    ] + blocked_corpus() + hard_failure_corpus() + nested_corpus()
+
+
+def nested_corpus():
+    """publish() called from inside on_publish (operation rxnest): window full with a message queued, window not full,
+    unlimited window, transport blocked, QoS 2 completion, several nested calls, a queue bound"""
+    ca = ("rx", "connack", 0, 0, 0, False)
+    W1 = {"clean": 0, "max": 1, "maxq": 0, "manual": False, "suppress": False}
+    W2 = dict(W1, max=2)
+    W0 = dict(W1, max=0)
+    Q = dict(W1, maxq=2)
+    return [
+        ("nested-window-full-queued", W1, [("rec", True), ca, ("pub", 1), ("pub", 1), ("rxnest", "puback", 1, (1,)),
+                                            ("rx", "puback", 2, 0, 0, False), ("rx", "puback", 3, 0, 0, False)]),
+        ("nested-window-free", W2, [("rec", True), ca, ("pub", 1), ("rxnest", "puback", 1, (2, 1)), ("rx", "puback", 3, 0, 0, False)]),
+        ("nested-unlimited", W0, [("rec", True), ca, ("pub", 2), ("rx", "pubrec", 1, 0, 0, False), ("rxnest", "pubcomp", 1, (1, 0, 2))]),
+        ("nested-blocked", W1, [("rec", True), ca, ("pub", 1), ("pub", 2), ("block", True), ("rxnest", "puback", 1, (1,)),
+                                 ("block", False), ("rx", "pubrec", 2, 0, 0, False)]),
+        ("nested-queue-bound", Q, [("rec", True), ca, ("pub", 1), ("pub", 1), ("pub", 1), ("rxnest", "puback", 1, (1, 1, 1))]),
+        ("nested-chain", W1, [("rec", True), ca, ("pub", 1), ("pub", 1), ("rxnest", "puback", 1, (1,)), ("rxnest", "puback", 2, (2,)),
+                               ("rxnest", "puback", 3, (1,)), ("rx", "pubrec", 4, 0, 0, False)]),
+        ("nested-unknown-id", W1, [("rec", True), ca, ("pub", 1), ("rxnest", "puback", 77, (1,)), ("rx", "puback", 1, 0, 0, False)]),
+    ]
 
 
 def hard_failure_corpus():
@@ -689,18 +793,36 @@ def run_cases(cases, out, prop_keys, label):
     prop_keys: checker names whose failure is a violation of the calling property."""
     if not cases:
         return
-    mres = run_model_batch(cases)
+    # the implementation runs first: an operation with calls nested in a callback is expanded into model operations
+    # according to what happened (run_impl_ex)
+    pre = []
+    for cfg, ops in cases:
+        if any(o[0] == "rxnest" for o in ops):
+            try:
+                pre.append(run_impl_ex(cfg, ops))
+            except Exception as e:      # noqa: BLE001
+                pre.append(e)
+        else:
+            pre.append(None)
+    mres_raw = run_model_batch([(cfg, (ops if (p is None or isinstance(p, Exception)) else p[1])) for (cfg, ops), p in zip(cases, pre)])
+    mres = []
+    for p, (mr, conforming) in zip(pre, mres_raw):
+        mres.append((mr if (p is None or isinstance(p, Exception)) else regroup(mr, p[2]), conforming))
     impl_runs = []
-    for (cfg, ops), (mr, conforming) in zip(cases, mres):
+    for (cfg, ops), (mr, conforming), p in zip(cases, mres, pre):
         out.cases += 1
         try:
-            ir = run_impl(cfg, ops)
+            if isinstance(p, Exception):
+                raise p
+            ir = run_impl(cfg, ops) if p is None else p[0]
         except Exception as e:  # the implementation crashed in an unexpected way
             out.disagreements.append({"case": {"cfg": cfg, "ops": ops}, "what": f"implementation raised {type(e).__name__}: {e}"})
             impl_runs.append(None)
             continue
         out.validated += 1
         impl_runs.append(ir)
+        if p is not None:
+            out.stat("nested_publish_groups", sum(1 for g in p[2] if g > 1))
         d = first_diff(ir, mr, cfg["clean"] == 2)
         if d is not None:
             d["case"] = {"cfg": cfg, "ops": ops[:d["op_index"] + 1]}
@@ -743,8 +865,10 @@ def run_cases(cases, out, prop_keys, label):
         trace_key = tuple(tuple(tuple(e) for e in evs) for evs, _ in ir)
         nontriv = any(e[0] in (0, 10) and e[2] in (1, 2) for evs, _ in ir for e in evs)
         out.seen((tuple(sorted(cfg.items())), trace_key), nontrivial=nontriv)
+    # traces with nested calls are not judged by the extracted checkers (their clauses speak about top-level operations);
+    # the correspondence with the expansion, which the theorems cover, decides there
     todo = [(i, cases[i][0], [evs for evs, _ in impl_runs[i]]) for i in range(len(cases))
-            if impl_runs[i] is not None and mres[i][1]]
+            if impl_runs[i] is not None and mres[i][1] and pre[i] is None]
     verdicts = check_traces([(cfg, tr) for _, cfg, tr in todo])
     keys = [k2 for k in prop_keys for k2 in ALIASES.get(k, [k])]
     for (i, cfg, tr), v in zip(todo, verdicts):
@@ -817,6 +941,16 @@ def standard_run(ctx, out, prop_keys, label, conforming=True):
         cases.append((cfg, ops))
     for i in range(0, len(cases), 2000):
         run_cases(cases[i:i + 2000], out, prop_keys, label)
+    # 3b. the same kind of histories with publish() calls nested in on_publish (operation rxnest)
+    cases = []
+    for _ in range(ctx.n(120, 1500)):
+        cfg = dict(rng.choice(CFGS))
+        cfg["max"] = rng.choice([0, 1, 1, 2, 2, 3])
+        cfg["maxq"] = rng.choice([0, 0, 0, 3, 6])
+        n = rng.choice([6, 12, 25, 40])
+        ops = resolve_acks(rng, cfg, random_ops(rng, n, cfg), conforming=conforming, nest=0.6)
+        cases.append((cfg, ops))
+    run_cases(cases, out, prop_keys, label)
     # 4. histories that straddle the 65535 -> 1 wrap of the packet-id counter: 65530 offline QoS 0
     #    publishes consume ids (no state, no traffic), then a random history follows
     wraps = []
